@@ -267,7 +267,7 @@ def r_impartial(c):
             return bad, out
         # the model runs in float32 (dtype-dependent constants such as finfo(dtype).eps take their float32 values there): both dtypes are tried
         bad, out = clause(torch.float64, 1e-6)
-        if not bad and np.all(np.abs(u) > 0) and np.linalg.cond(J) < 1e3:
+        if not bad and np.any(u > 0) and np.all(u >= 0) and np.linalg.cond(J) < 1e3:
             bad, out = clause(torch.float32, 1e-3)
         return dict(reproduced=bool(bad), why=bad, out=out.tolist())
     if agg == "alignedmtl":
